@@ -23,7 +23,7 @@ from .definition import GraphQLNamedType, GraphQLScalarType
 if TYPE_CHECKING:
     from collections.abc import Mapping
 
-_re_integer_string = re.compile("^-?(?:0|[1-9][0-9]*)$")
+_re_integer_string = re.compile(r"^-?(?:0|[1-9][0-9]*)\Z")
 
 __all__ = [
     "GRAPHQL_MAX_INT",
